@@ -13,6 +13,11 @@ struct Run {
     bool guided = false;
     std::map<std::tuple<int, int, int>, int> guide;   // (tid, op, yield ordinal) -> tid to run
     J trace = J::arr();
+    // 'park' pre-emption (long pre-emption, PCT-like): task tid, on reaching yield ordinal y of its op, stays off the processor until the other tasks have
+    // passed n further call boundaries (or none of them can run)
+    struct Park { int tid, op, y, n; };
+    std::vector<Park> parks;
+    long call_yields = 0;
     std::string hist;
     uint64_t hash = 0xcbf29ce484222325ull;
     int nev = 0;
